@@ -9,7 +9,10 @@
      SetKey c,k,id          setkey script:  if GET k == id then SET k val
      DelKey c,k,id          delkey script:  if GET k == id then DEL k
      Del c,k / Expire k     a user's DEL / the key expired
-     GetBegin c,k,n  GetEnd c,k,tk,tn,res,n    the n-th Get and what it returned (res: ok timeout loaderr err dead)
+     LibDel c,k             an unconditional DEL of a cache key that no user asked for (the library's own)
+     Conn c                 the first command of client c on a new connection (the previous one is gone: c.id is reset)
+     GetBegin c,k,n,id  GetEnd c,k,tk,tn,res,n    the n-th Get (id = 1: without a loader) and what it returned
+                            (res: ok timeout loaderr nil err dead)
      LoadBegin c,k,n  LoadEnd c,k,n,res        the n-th loader run
      Die c                  the client is gone (connections cut, no final DEL)
 
@@ -19,10 +22,18 @@ EXTENDS Integers, FiniteSets, Sequences, TLC, Json, IOUtils
 
 CONSTANTS ClientTTLms, SlackMs
 
-VARIABLES l, val, alive, owner, everDead, dead, diedAt, locks, loading, stored, loadKey, loadBy, getAt, bad
+VARIABLES l, val, alive, owner, everDead, dead, diedAt, locks, loading, stored, loadKey, loadBy, getAt, bad,
+          ep,        \* ep[c]: connections client c has used so far (its registration epochs)
+          idEp,      \* idEp[id]: epoch of the owner in which the liveness key id was written first
+          used,      \* used[<<c, e>>]: ids written first in epoch e of client c and named by a lock command in that epoch
+          nilGets,   \* Gets without a loader
+          div,       \* the server clock runs div times slower than the wall clock (RESET.n)
+          mono       \* every client has one connection (RESET.id = 1): Conn records are written and delimit the periods in
+                     \* which c.id is not reset (onInvalidation(nil) runs once per lost connection)
 
 TraceLog == ndJsonDeserialize(IOEnv.VERIF_TRACE)
-tvars == <<l, val, alive, owner, everDead, dead, diedAt, locks, loading, stored, loadKey, loadBy, getAt, bad>>
+tvars == <<l, val, alive, owner, everDead, dead, diedAt, locks, loading, stored, loadKey, loadBy, getAt, bad, ep, idEp, used, nilGets, div, mono>>
+r2 == <<ep, idEp, used, nilGets, div, mono>>
 
 Ev == TraceLog[l]
 Is(e) == l <= Len(TraceLog) /\ TraceLog[l].ev = e
@@ -40,21 +51,32 @@ LoseWhere(P(_)) == {IF P(r) THEN [r EXCEPT !.lost = TRUE] ELSE r : r \in locks}
 
 TraceInit == /\ l = 1 /\ val = <<>> /\ alive = {} /\ owner = <<>> /\ everDead = {} /\ dead = {} /\ diedAt = <<>>
              /\ locks = {} /\ loading = {} /\ stored = <<>> /\ loadKey = <<>> /\ loadBy = <<>> /\ getAt = <<>> /\ bad = {}
+             /\ ep = <<>> /\ idEp = <<>> /\ used = <<>> /\ nilGets = {} /\ div = 1 /\ mono = FALSE
              /\ TLCSet(1, 1)
 Reset == /\ Is("RESET") /\ Step
          /\ val' = <<>> /\ alive' = {} /\ owner' = <<>> /\ everDead' = {} /\ dead' = {} /\ diedAt' = <<>>
          /\ locks' = {} /\ loading' = {} /\ stored' = <<>> /\ loadKey' = <<>> /\ loadBy' = <<>> /\ getAt' = <<>> /\ bad' = {}
+         /\ ep' = <<>> /\ idEp' = <<>> /\ used' = <<>> /\ nilGets' = {} /\ div' = (IF Ev.n > 1 THEN Ev.n ELSE 1) /\ mono' = (Ev.id = 1)
 
 Same(vs) == UNCHANGED vs
 
 IdSet == /\ Is("IdSet") /\ Step
          /\ alive' = alive \cup {Ev.id}
          /\ owner' = IF Ev.id \in DOMAIN owner THEN owner ELSE Put(owner, Ev.id, Ev.c)
-         /\ UNCHANGED <<val, everDead, dead, diedAt, locks, loading, stored, loadKey, loadBy, getAt, bad>>
+         /\ idEp' = IF Ev.id \in DOMAIN idEp THEN idEp ELSE Put(idEp, Ev.id, Get(ep, Ev.c, 0))
+         /\ UNCHANGED <<val, everDead, dead, diedAt, locks, loading, stored, loadKey, loadBy, getAt, bad, ep, used, nilGets, div, mono>>
+\* The liveness key disappears: the holders of locks that name it are excused from now on. Not so on a slow server clock
+\* (div > 1: the key lives div * ClientTTL on the wall clock, the refresh comes every ClientTTL / 2): there an expiry while the
+\* owner lives on the connection on which it registered the id means that nobody refreshes the id; a lock that names it
+\* and whose loader is running is not excused.
 IdGone == /\ Is("IdGone") /\ Step
           /\ alive' = alive \ {Ev.id} /\ everDead' = everDead \cup {Ev.id}
-          /\ locks' = LoseWhere(LAMBDA r : r.id = Ev.id)
-          /\ UNCHANGED <<val, owner, dead, diedAt, loading, stored, loadKey, loadBy, getAt, bad>>
+          /\ LET o == Get(owner, Ev.id, 0)
+                 unserved == /\ div > 1 /\ mono /\ Ev.res = "expire" /\ o \notin dead /\ Get(idEp, Ev.id, -1) = Get(ep, o, 0)
+                 held == \E r \in locks : r.id = Ev.id /\ ~r.lost /\ \E x \in loading : x.c = r.c /\ x.k = r.k
+             IN /\ locks' = IF unserved THEN locks ELSE LoseWhere(LAMBDA r : r.id = Ev.id)
+                /\ bad' = bad \cup (IF unserved /\ held THEN {"HolderMarkerKeptAlive"} ELSE {})
+          /\ UNCHANGED <<val, owner, dead, diedAt, loading, stored, loadKey, loadBy, getAt>> /\ UNCHANGED r2
 
 \* SET k id NX GET PX ttl
 Lock == /\ Is("Lock") /\ Step /\ From = Val(Ev.k) /\ Ev.id > 0
@@ -64,7 +86,14 @@ Lock == /\ Is("Lock") /\ Step /\ From = Val(Ev.k) /\ Ev.id > 0
                                  \cup {[c |-> Ev.c, k |-> Ev.k, id |-> Ev.id, lost |-> Ev.id \notin alive]}
              ELSE To = From /\ UNCHANGED locks
         /\ val' = SetVal(Ev.k, To)
-        /\ UNCHANGED <<alive, owner, everDead, dead, diedAt, loading, stored, loadKey, loadBy, getAt, bad>>
+        \* one registered id per client and connection: ids the client wrote first on its current connection and names in
+        \* lock commands on that connection. Two of them: one is not the id the client's refresh goroutine serves.
+        /\ LET e == Get(ep, Ev.c, 0)
+               mine == Ev.id \in DOMAIN idEp /\ idEp[Ev.id] = e /\ Get(owner, Ev.id, 0) = Ev.c
+               u == Get(used, <<Ev.c, e>>, {}) \cup (IF mine THEN {Ev.id} ELSE {})
+           IN /\ used' = Put(used, <<Ev.c, e>>, u)
+              /\ bad' = bad \cup (IF mono /\ Cardinality(u) > 1 THEN {"LockNamesRefreshedId"} ELSE {})
+        /\ UNCHANGED <<alive, owner, everDead, dead, diedAt, loading, stored, loadKey, loadBy, getAt, ep, idEp, nilGets, div, mono>>
 \* if GET k == id then SET k val PX ttl else 0
 SetKey == /\ Is("SetKey") /\ Step /\ From = Val(Ev.k)
           /\ IF From = <<"ph", Ev.id>>
@@ -72,7 +101,7 @@ SetKey == /\ Is("SetKey") /\ Step /\ From = Val(Ev.k)
                     /\ stored' = Put(stored, Ev.k, Get(stored, Ev.k, {}) \cup {Ev.tn})
                ELSE To = From /\ UNCHANGED stored
           /\ val' = SetVal(Ev.k, To)
-          /\ UNCHANGED <<alive, owner, everDead, dead, diedAt, locks, loading, loadKey, loadBy, getAt, bad>>
+          /\ UNCHANGED <<alive, owner, everDead, dead, diedAt, locks, loading, loadKey, loadBy, getAt, bad>> /\ UNCHANGED r2
 \* if GET k == id then DEL k else 0
 DelKey == /\ Is("DelKey") /\ Step /\ From = Val(Ev.k)
           /\ To = From \/ To = NILV
@@ -86,13 +115,29 @@ DelKey == /\ Is("DelKey") /\ Step /\ From = Val(Ev.k)
                                    THEN {"LockStolenFromLiveHolder"} ELSE {})
                 /\ locks' = IF gone THEN LoseWhere(LAMBDA r : r.k = Ev.k) ELSE locks
           /\ val' = SetVal(Ev.k, To)
-          /\ UNCHANGED <<alive, owner, everDead, dead, diedAt, loading, stored, loadKey, loadBy, getAt>>
+          /\ UNCHANGED <<alive, owner, everDead, dead, diedAt, loading, stored, loadKey, loadBy, getAt>> /\ UNCHANGED r2
+\* DEL k sent by the library itself: a release without the comparison. Whatever it removes that is not the placeholder of
+\* a holder whose liveness key has been seen absent was not the sender's to remove.
+LibDel == /\ Is("LibDel") /\ Step /\ From = Val(Ev.k) /\ To = NILV
+          /\ LET gone == From # NILV
+                 deadph == From[1] = "ph" /\ (From[2] \in everDead \/ Get(owner, From[2], 0) \in dead)
+                 foreign == gone /\ From[1] = "ph" /\ Get(owner, From[2], 0) # Ev.c
+             IN /\ bad' = bad \cup (IF gone /\ ~deadph THEN {"DelOnlyOwn"} ELSE {})
+                             \cup (IF foreign /\ ~deadph /\ \E r \in locks : r.id = From[2] /\ r.k = Ev.k /\ ~r.lost
+                                   THEN {"LockStolenFromLiveHolder"} ELSE {})
+                \* the holder of a lock removed this way is not excused: a second loader counts
+                /\ locks' = IF gone /\ deadph THEN LoseWhere(LAMBDA r : r.k = Ev.k) ELSE locks
+          /\ val' = SetVal(Ev.k, NILV)
+          /\ UNCHANGED <<alive, owner, everDead, dead, diedAt, loading, stored, loadKey, loadBy, getAt>> /\ UNCHANGED r2
+Conn == /\ Is("Conn") /\ Step /\ ep' = Put(ep, Ev.c, Get(ep, Ev.c, 0) + 1)
+        /\ UNCHANGED <<val, alive, owner, everDead, dead, diedAt, locks, loading, stored, loadKey, loadBy, getAt, bad, idEp, used, nilGets, div, mono>>
 Vanish(e) == /\ Is(e) /\ Step
              /\ val' = SetVal(Ev.k, NILV) /\ locks' = LoseWhere(LAMBDA r : r.k = Ev.k)
-             /\ UNCHANGED <<alive, owner, everDead, dead, diedAt, loading, stored, loadKey, loadBy, getAt, bad>>
+             /\ UNCHANGED <<alive, owner, everDead, dead, diedAt, loading, stored, loadKey, loadBy, getAt, bad>> /\ UNCHANGED r2
 
 GetBegin == /\ Is("GetBegin") /\ Step /\ getAt' = Put(getAt, Ev.n, Ev.t)
-            /\ UNCHANGED <<val, alive, owner, everDead, dead, diedAt, locks, loading, stored, loadKey, loadBy, bad>>
+            /\ nilGets' = IF Ev.id = 1 THEN nilGets \cup {Ev.n} ELSE nilGets
+            /\ UNCHANGED <<val, alive, owner, everDead, dead, diedAt, locks, loading, stored, loadKey, loadBy, bad, ep, idEp, used, div, mono>>
 \* the loader of client c starts: no other loader of this key may be running for a holder that is alive and whose lock
 \* was never legitimately lost
 LoadBegin == /\ Is("LoadBegin") /\ Step
@@ -101,10 +146,10 @@ LoadBegin == /\ Is("LoadBegin") /\ Step
                                  THEN {"LoaderOnceWhileHolderAlive"} ELSE {})
              /\ loading' = loading \cup {[c |-> Ev.c, k |-> Ev.k, n |-> Ev.n]}
              /\ loadKey' = Put(loadKey, Ev.n, Ev.k) /\ loadBy' = Put(loadBy, Ev.n, Ev.c)
-             /\ UNCHANGED <<val, alive, owner, everDead, dead, diedAt, locks, stored, getAt>>
+             /\ UNCHANGED <<val, alive, owner, everDead, dead, diedAt, locks, stored, getAt>> /\ UNCHANGED r2
 LoadEnd == /\ Is("LoadEnd") /\ Step
            /\ loading' = {x \in loading : x.n # Ev.n}
-           /\ UNCHANGED <<val, alive, owner, everDead, dead, diedAt, locks, stored, loadKey, loadBy, getAt, bad>>
+           /\ UNCHANGED <<val, alive, owner, everDead, dead, diedAt, locks, stored, loadKey, loadBy, getAt, bad>> /\ UNCHANGED r2
 GetEnd ==
    LET k == Ev.k
        v == Val(k)
@@ -116,16 +161,19 @@ GetEnd ==
                                                 /\ \/ Ev.tn \in Get(stored, k, {})
                                                    \/ (Ev.tn \in DOMAIN loadBy /\ loadBy[Ev.tn] = Ev.c /\ loadKey[Ev.tn] = k))
                           THEN {"ValueFromLoaderOrStore"} ELSE {})
+                    \* the nil error is for Gets without a loader only; such a Get never runs a loader
+                    \cup (IF Ev.res = "nil" /\ Ev.n \notin nilGets THEN {"ValueFromLoaderOrStore"} ELSE {})
+                    \cup (IF Ev.res = "loaderr" /\ Ev.n \in nilGets THEN {"ValueFromLoaderOrStore"} ELSE {})
                     \* the Get gave up although the lock holder had been dead for longer than its liveness key lives
-                    \cup (IF Ev.res = "timeout" /\ holder \in dead /\ Ev.t - since > ClientTTLms + SlackMs
+                    \cup (IF Ev.res = "timeout" /\ holder \in dead /\ Ev.t - since > ClientTTLms * div + SlackMs
                           THEN {"DeadLockReleased"} ELSE {})
-      /\ UNCHANGED <<val, alive, owner, everDead, dead, diedAt, locks, loading, stored, loadKey, loadBy, getAt>>
+      /\ UNCHANGED <<val, alive, owner, everDead, dead, diedAt, locks, loading, stored, loadKey, loadBy, getAt>> /\ UNCHANGED r2
 Die == /\ Is("Die") /\ Step /\ dead' = dead \cup {Ev.c} /\ diedAt' = Put(diedAt, Ev.c, Ev.t)
-       /\ UNCHANGED <<val, alive, owner, everDead, locks, loading, stored, loadKey, loadBy, getAt, bad>>
-End == /\ Is("End") /\ Step /\ UNCHANGED <<val, alive, owner, everDead, dead, diedAt, locks, loading, stored, loadKey, loadBy, getAt, bad>>
-       /\ (bad # {} => PrintT(<<"BAD", l, bad>>))
+       /\ UNCHANGED <<val, alive, owner, everDead, locks, loading, stored, loadKey, loadBy, getAt, bad>> /\ UNCHANGED r2
+End == /\ Is("End") /\ Step /\ UNCHANGED <<val, alive, owner, everDead, dead, diedAt, locks, loading, stored, loadKey, loadBy, getAt, bad>> /\ UNCHANGED r2
+       /\ \A b \in bad : PrintT(<<"BAD", l, {b}>>)      \* one short line per property (TLC wraps long tuples)
 
-TraceNext == Reset \/ IdSet \/ IdGone \/ Lock \/ SetKey \/ DelKey \/ Vanish("Del") \/ Vanish("Expire")
+TraceNext == Reset \/ IdSet \/ IdGone \/ Lock \/ SetKey \/ DelKey \/ LibDel \/ Conn \/ Vanish("Del") \/ Vanish("Expire")
              \/ GetBegin \/ LoadBegin \/ LoadEnd \/ GetEnd \/ Die \/ End
 TraceSpec == TraceInit /\ [][TraceNext]_tvars
 
@@ -135,6 +183,8 @@ LoaderOnceWhileHolderAlive == "LoaderOnceWhileHolderAlive" \notin bad
 LockStolenOnlyFromDead == "LockStolenFromLiveHolder" \notin bad
 DelOnlyOwn == "DelOnlyOwn" \notin bad
 DeadLockReleased == "DeadLockReleased" \notin bad
+LockNamesRefreshedId == "LockNamesRefreshedId" \notin bad
+HolderMarkerKeptAlive == "HolderMarkerKeptAlive" \notin bad
 
 HighWater == TLCSet(1, IF l > TLCGet(1) THEN l ELSE TLCGet(1))
 TraceAccepted == \/ TLCGet(1) = Len(TraceLog) + 1
